@@ -214,9 +214,8 @@ func (g *gen) annoValue(name string, again bool) Anno {
 	case 4:
 		a.Form, a.Nested = fNested, g.nested()
 	case 5:
-		// an empty value overrides nothing and is overridden by a later one: in the merging streams it is only used
-		// where it is not followed by another declaration of the name, i.e. never as the first of several
-		if (again || g.hostile) && g.r.Bool() {
+		// an empty value overrides nothing and is overridden by a later one
+		if g.r.Bool() {
 			a.Form = fEmptyArr
 		} else {
 			a.Items = []string{g.str()}
@@ -224,7 +223,7 @@ func (g *gen) annoValue(name string, again bool) Anno {
 	case 6:
 		a.Form, a.Lines = fMulti, []string{"line one " + g.str(), "line two"}[:1+g.r.Intn(2)]
 	default:
-		if (again || g.hostile) && g.r.Bool() {
+		if g.r.Bool() {
 			a.Form = fEmptyStr
 		} else {
 			a.Val = g.str()
@@ -248,8 +247,11 @@ func (g *gen) annos(pool *[]string, max int) []Anno {
 			again = true
 			var num int
 			fmt.Sscanf(name, "n%d", &num)
-			if num%8 == 6 && !g.hostile {
-				continue // a multi-line annotation declared again records two locations (known finding): replacing stream only
+			if num%8 >= 5 && !g.hostile {
+				// a multi-line annotation declared again records two locations, and an empty value that happens to be
+				// compiled first loses its location to the next declaration (known findings): re-declared in the
+				// replacing stream only
+				continue
 			}
 		} else {
 			name = g.id("n")
